@@ -861,9 +861,31 @@ func genReaderStorm(r *rng) *wlPure {
 	return wl
 }
 
+// genMergeStorm: 2-3 tasks merging the same crowded module sets (many files,
+// colliding names, conflicts) - the sizes at which a merge might fan out.
+func genMergeStorm(r *rng) *wlPure {
+	wl := &wlPure{}
+	n := 1 + r.intn(2)
+	for i := 0; i < n; i++ {
+		wl.Inputs = append(wl.Inputs, pInput{Kind: "modset", ModSet: genModuleSetOpt(r, 1+r.intn(3), true)})
+	}
+	nt := 2 + r.intn(2)
+	for t := 0; t < nt; t++ {
+		var ops []pOp
+		for _, i := range r.perm(len(wl.Inputs)) {
+			ops = append(ops, pOp{Kind: "merge", In: i, Opt: r.chance(50)})
+		}
+		wl.Tasks = append(wl.Tasks, ops)
+	}
+	return wl
+}
+
 func genPureWorkload(r *rng) *wlPure {
 	if r.chance(12) {
 		return genReaderStorm(r)
+	}
+	if r.chance(3) {
+		return genMergeStorm(r)
 	}
 	wl := &wlPure{}
 	nIn := 2 + r.intn(4)
